@@ -97,7 +97,7 @@ func Open(dir string, opts Options) (result Log, err error) {
 			l.readers = append(l.readers, rdr)
 		}
 	case len(segments) == 0:
-		w, err := openWriter(segment.New(dir, 0, opts.AutoSync), params, opts.Version.NewSegmentsVersion, 0)
+		w, err := openWriter(segment.New(dir, 0, opts.AutoSync), params, opts.Version.NewSegmentsVersion, index.TimeNone)
 		if err != nil {
 			return nil, fmt.Errorf("open new writer: %w", err)
 		}
@@ -131,7 +131,7 @@ func Open(dir string, opts Options) (result Log, err error) {
 			l.readers = append(l.readers, rdr)
 		}
 
-		wrt, err := openWriter(head, params, opts.Version.NewSegmentsVersion, 0)
+		wrt, err := openWriter(head, params, opts.Version.NewSegmentsVersion, index.TimeNone)
 		if err != nil {
 			return nil, fmt.Errorf("open writer: %w", err)
 		}
